@@ -11,7 +11,7 @@ OBS = []
 
 
 def K(id, props, harness, fns, stmt, pkg="owlchess", tier="quick", assumes=(), timeout=900, mem_gb=14,
-      solver="minisat", bounded=None, expect_panic=None):
+      solver="kissat", bounded=None, expect_panic=None):
     OBS.append(dict(id=id, props=list(props), backend="kani-bounded" if bounded else "kani-complete", pkg=pkg,
                     harness=harness,
                     fns=list(fns), stmt=stmt, tier=tier, assumes=list(assumes), timeout=timeout, mem_gb=mem_gb,
@@ -231,6 +231,55 @@ K("C10/text/from-str", ["C10", "C12", "C02"], UC + "c10_uci_from_str_all_short_s
   bounded="strings of <= 6 bytes (every accepted string has 4 or 5)", timeout=1800)
 K("C10/text/display", ["C10", "C12"], UC + "c10_uci_display_parses_back", ["<uci::Move as Display>::fmt", "<uci::Move as FromStr>::from_str"],
   "for all 20 481 UCI values: the text is the coordinate notation and parses back to the value", timeout=1800)
+
+# ---------------------------------------------------------------------------------------------
+# generators (C01 item 3, C06 item 3, C07 has_legal_moves): witness-sink obligations per private
+# sub-generator; the dispatchers are Layer V (movegen.vspec)
+# ---------------------------------------------------------------------------------------------
+GENFN = {"knight": ["movegen::MoveGenImpl::gen_knight", "movegen::MoveGenImpl::do_gen_kn"], "king": ["movegen::MoveGenImpl::gen_king", "movegen::MoveGenImpl::do_gen_kn"]}
+GEN_ALL = []
+for _p in ("knight", "king"):
+    for _f, _fd in (("tt", "all targets"), ("tf", "non-captures only"), ("ft", "captures only"), ("ff", "nothing")):
+        for _c in ("w", "b"):
+            _id = "C01/gen/%s/%s/%s" % (_p, _f, _c)
+            GEN_ALL.append(_id)
+            K(_id, ["C01", "C06", "C07", "C19"], MG + "gen_%s_%s_%s" % (_p, _f, _c), GENFN[_p] + ["movegen::MoveGenImpl::add_move", "movegen::MoveGenImpl::allowed_mask"],
+              "for all well-formed boards (side %s, <= 16 men a side) and an ARBITRARY witness move w of a %s: the generator with flags %s (%s) pushes w exactly once iff w is pseudo-legal by the rules and in that class, never otherwise; it stops at the first refused push and reports it" % (_c, _p, _f, _fd),
+              assumes=["C15/attack/leapers-pawns", "C20/bitboard/iter-step"], tier="quick" if _f == "tt" else "thorough", timeout=3000, mem_gb=16)
+for _p in ("bishop", "rook", "queen"):
+    for _c in ("w", "b"):
+        _id = "C01/gen/%s/tt/%s" % (_p, _c)
+        GEN_ALL.append(_id)
+        K(_id, ["C01", "C06", "C07", "C19"], MG + "gen_%s_tt_%s" % (_p, _c), ["movegen::MoveGenImpl::do_gen_brq", "movegen::MoveGenImpl::add_move", "movegen::MoveGenImpl::allowed_mask"],
+          "for all well-formed boards (side %s, <= 16 men a side) and an arbitrary witness %s move w: do_gen_brq pushes w exactly once iff w is pseudo-legal (slides over empty squares to an empty or enemy square)" % (_c, _p),
+          assumes=TABLES + ["C20/bitboard/iter-step"], timeout=3600, mem_gb=20)
+K("C01/gen/allowed-mask", ["C01", "C06"], MG + "gen_allowed_mask_flags", ["movegen::MoveGenImpl::allowed_mask"],
+  "for all boards, both colours: allowed_mask<S,C> == not-own / empty / enemy / nothing for (t,t) (t,f) (f,t) (f,f) - the only place the flags enter the piece generators")
+for _f, _fd in (("tt", "single and double steps and promotions"), ("tf", "no promotions"), ("ft", "promotions only")):
+    for _c in ("w", "b"):
+        _id = "C01/gen/pawn-simple/%s/%s" % (_f, _c)
+        GEN_ALL.append(_id)
+        K(_id, ["C01", "C06", "C07", "C19"], MG + "gen_pawn_simple_%s_%s" % (_f, _c), ["movegen::MoveGenImpl::gen_pawn_simple", "movegen::MoveGenImpl::do_gen_pawn_single", "movegen::MoveGenImpl::do_gen_pawn_double", "movegen::MoveGenImpl::add_pawn_with_promote"],
+          "for all well-formed boards (side %s, <= 16 men, no pawn on a back rank) and an arbitrary witness pawn move w: gen_pawn_simple<%s> (%s) pushes w exactly once iff w is a pseudo-legal straight pawn move of that class; unchecked square arithmetic in bounds" % (_c, _f, _fd),
+          assumes=["C15/pawns/advances", "C20/bitboard/iter-step", "C20/consts/lines-colours"], tier="quick" if _f == "tt" else "thorough", timeout=3000, mem_gb=16)
+for _g, _gd, _fn in (("pawn_capture", "ordinary pawn captures (incl. capture-promotions, all four pieces)", ["movegen::MoveGenImpl::gen_pawn_capture", "movegen::MoveGenImpl::do_gen_pawn_capture"]),
+                     ("pawn_enpassant", "en-passant captures", ["movegen::MoveGenImpl::gen_pawn_enpassant"]),
+                     ("castling", "castlings", ["movegen::MoveGenImpl::gen_castling"])):
+    for _c in ("w", "b"):
+        _id = "C01/gen/%s/%s" % (_g.replace("_", "-"), _c)
+        GEN_ALL.append(_id)
+        K(_id, ["C01", "C06", "C07", "C19"], MG + "gen_%s_%s" % (_g, _c), _fn + ["movegen::MoveGenImpl::add_move"],
+          "for all well-formed boards (side %s, <= 16 men, no back-rank pawns, consistent mark) and an arbitrary witness move w: the generator pushes w exactly once iff w is one of the pseudo-legal %s" % (_c, _gd),
+          assumes=ATT + ["C15/pawns/advances", "C15/castling/masks"], timeout=3000, mem_gb=16)
+K("C07/legal-filter", ["C07", "C01", "C09"], MG + "c07_legal_filter_forwards_iff_is_legal", ["movegen::LegalFilter::new", "movegen::LegalFilter::push", "movegen::ErrOnFirst::push"],
+  "for all boards with one king each and any move: LegalFilter::push forwards the move to the inner sink exactly when Checker<DefaultPrechecker>::is_legal holds and returns the inner sink's answer; ErrOnFirst refuses every push",
+  assumes=["C01/legal/is-legal/%s/%s" % (_k, _c) for _s, _k in KINDS for _c in ("w", "b")])
+
+V("C01/gen/dispatch", ["C01", "C06", "C07"], "movegen.vspec",
+  ["movegen::MoveGenImpl::gen", "movegen::MoveGenImpl::gen_brq", "movegen::MoveGenImpl::gen_for_has_legal_moves", "movegen::MoveGenImpl::gen_all", "movegen::MoveGenImpl::gen_capture",
+   "movegen::MoveGenImpl::gen_simple", "movegen::MoveGenImpl::gen_simple_no_promote", "movegen::MoveGenImpl::gen_simple_promote"],
+  "for every sink and every board: gen_all / gen_capture / gen_simple / gen_simple_no_promote / gen_simple_promote run exactly the move classes the property assigns to them (all; captures incl. en passant and capture-promotions; non-captures incl. castling; the same without / only straight promotions), each class once, and on a refused push stop inside that class; gen_for_has_legal_moves runs every class except castling",
+  assumes=GEN_ALL + ["C01/gen/allowed-mask"])
 
 
 def by_id():
